@@ -65,13 +65,29 @@ def decoder_shape(v):
         if isinstance(n, ast.Call) and isinstance(n.func, ast.Attribute) and n.func.attr == "get" and n.args and isinstance(n.args[0], ast.Constant):
             return n.args[0].value
         return None
+    def or_default(n):
+        """`<key read> or <literal>` -> (key, harmless): every falsy saved value (0, 0.0, "", [], an enum member whose value is 0) is
+        replaced by the literal; harmless only if the literal is itself the falsy value of that kind (0 -> 0)."""
+        if isinstance(n, ast.BoolOp) and isinstance(n.op, ast.Or) and len(n.values) == 2 and key_of(n.values[0]) is not None:
+            try:
+                d = ast.literal_eval(n.values[1])
+            except (ValueError, SyntaxError):
+                return key_of(n.values[0]), False
+            return key_of(n.values[0]), (d == 0 and not isinstance(d, bool)) or d in ("", [], None)
+        return None
     k = key_of(v)
     if k is not None:
         return ("identity", k)
+    od = or_default(v)
+    if od is not None:
+        return ("identity" if od[1] else "falsy-to-default", od[0])
     if isinstance(v, ast.Call):
         fn = ast.unparse(v.func)
         if v.args and key_of(v.args[0]) is not None and isinstance(v.func, ast.Name):
             return ("enum:" + fn, key_of(v.args[0]))
+        if v.args and or_default(v.args[0]) is not None and isinstance(v.func, ast.Name):
+            od = or_default(v.args[0])
+            return (("enum:" if od[1] else "enum-falsy-to-default:") + fn, od[0])
         if fn.endswith("timedelta"):
             for kw in v.keywords:
                 if kw.arg == "seconds" and isinstance(kw.value, ast.Call) and ast.unparse(kw.value.func) == "float" and key_of(kw.value.args[0]):
